@@ -859,6 +859,10 @@ fn mode_flat(_seed: u64, limit: usize) -> Vec<serde_json::Value> {
                     let sp = match tag { 1 => uplc::ast::SerializableProgram::PlutusV1Program(prog.clone()), 2 => uplc::ast::SerializableProgram::PlutusV2Program(prog.clone()), _ => uplc::ast::SerializableProgram::PlutusV3Program(prog.clone()) };
                     let (hash, _) = sp.compiled_code_and_hash();
                     if hash.to_vec() != want.to_vec() { return Err(format!("published hash of the PlutusV{tag} script is not the ledger hash of its code")); }
+                    // blueprint save -> load keeps the program and its declared Plutus version
+                    let js = serde_json::to_string(&sp).map_err(|e| format!("{e}"))?;
+                    let back: uplc::ast::SerializableProgram = serde_json::from_str(&js).map_err(|e| format!("blueprint load of a PlutusV{tag} program: {e}"))?;
+                    if back != sp { return Err(format!("a PlutusV{tag} program saved to a blueprint loads back as a different program / Plutus version")); }
                 }
                 Ok::<(), String>(())
             }));
@@ -870,7 +874,7 @@ fn mode_flat(_seed: u64, limit: usize) -> Vec<serde_json::Value> {
             }
         }
     }
-    println!("BOUNDS mode=flat {n} programs: every constant of the pool, nested list/pair types over string/bytestring/unit, a 600-byte string, every builtin, all closed terms of size<=4; versions 1.0.0 and 1.1.0; flat and hex(cbor) in de Bruijn, named-de-Bruijn and named form; address and published hash = blake2b-224(version tag ++ cbor) for V1, V2, V3");
+    println!("BOUNDS mode=flat {n} programs: every constant of the pool, nested list/pair types over string/bytestring/unit, a 600-byte string, every builtin, all closed terms of size<=4; versions 1.0.0 and 1.1.0; flat and hex(cbor) in de Bruijn, named-de-Bruijn and named form; address and published hash = blake2b-224(version tag ++ cbor) for V1, V2, V3; blueprint JSON save/load keeps program and version");
     fails
 }
 
